@@ -345,7 +345,14 @@ def search_case(case, ctx):
 
 
 def run_shard(ctx):
-    ctx.given(dc.cases(PROFILE), search_case, ctx.scale(1200, 20000))
+    # in chunks: once the time budget is used up Hypothesis still *generates* the remaining examples of a run
+    # (quick: one run of 150 examples per shard, label 'main')
+    total, done, k = ctx.scale(1200, 20000), 0, 0
+    while done < total and not ctx.out_of_time():
+        n = min(250, total - done)
+        ctx.given(dc.cases(PROFILE), search_case, n, label='main' if k == 0 else f'main{k}')
+        done += n
+        k += 1
 
 
 def replay(case, ctx):
